@@ -17,7 +17,8 @@ RULE = ("systematic + random values through gdstk's codecs (in-memory OasisStrea
         "neighbours of 1/n; point lists (Manhattan both starts, octangular, general, open/closed, repeated vertices, "
         "length 1..50) encoded by gdstk and decoded by the reference and encoded by the reference in every legal type "
         "and decoded by gdstk. A value is non-trivial when it lies within 1 of a 7-bit-group boundary, a power of 16 or "
-        "is an alternative (non-canonical) encoding; distinct by (codec, value)")
+        "is an alternative (non-canonical) encoding; distinct by (codec, value). Every case runs on the clang build and on a "
+        "g++ build of the same sources (order of evaluation and conversions are compiler dependent)")
 ASSUMPTIONS = ["reference codecs in pbt/oasnum.py follow DESIGN.md Appendix A", "non-minimal integer encodings are limited to 10 bytes",
                "signed values are limited to |v| <= 2^63-1 (sign-magnitude cannot carry -2^63)"]
 
@@ -475,6 +476,24 @@ def plist_case(draw):
     return {"points": pts, "closed": closed}
 
 
+TARGETS = ("gdstk_driver", "gdstk_driver_gcc")
+
+
+def check_both(ctx, case):
+    """the codecs are header-level arithmetic whose meaning may depend on the compiler (order of evaluation of arguments,
+    conversions): every case is run on the clang build and on a g++ build of the same sources (the repository's own compiler)"""
+    check_case(ctx, case)
+    if getattr(ctx, "_gcc", None) is None:
+        from common import Driver
+        ctx._gcc = Driver(ctx.build_dir, ctx.tmpdir, watchdog=ctx.driver.watchdog, exe_name="gdstk_driver_gcc")
+    main = ctx.driver
+    ctx.driver = ctx._gcc
+    try:
+        check_case(ctx, case)
+    finally:
+        ctx.driver = main
+
+
 def run_worker(ctx):
     vs = []
     q = ctx.tier == "quick"
@@ -482,7 +501,7 @@ def run_worker(ctx):
         if i % ctx.nworkers != ctx.worker:
             continue
         try:
-            check_case(ctx, {"codec": codec, "values": vals})
+            check_both(ctx, {"codec": codec, "values": vals})
         except Violation as v:
             v.test = codec
             vs.append(v)
@@ -504,11 +523,11 @@ def run_worker(ctx):
         ("plist", plist_case(), 3000 if q else 60000),
     ]
     for name, strat, total in plan:
-        v = ctx.hypothesis(check_case, strat, ctx.share(total), name)
+        v = ctx.hypothesis(check_both, strat, ctx.share(total), name)
         if v:
             vs.append(v)
     return vs
 
 
 def replay(ctx, test, case, ignore_known=False):
-    return check_case(ctx, case)
+    return check_both(ctx, case)
